@@ -11,6 +11,7 @@ import (
 	"fmt"
 	"os"
 	"os/signal"
+	"path/filepath"
 	"runtime"
 	"runtime/debug"
 	"strings"
@@ -70,7 +71,8 @@ func libFrames() []string {
 	for {
 		f, more := fr.Next()
 		if isLibFrame(f.Function) {
-			out = append(out, f.Function)
+			// "function@file:line"; the location is informational (triage), never part of a signature
+			out = append(out, fmt.Sprintf("%s@%s:%d", f.Function, filepath.Base(f.File), f.Line))
 		}
 		if !more {
 			break
